@@ -47,11 +47,36 @@ Lemma open_logged X X' fs k hash v cid f :
   In (path_of (lookup_key k hash) v, (lookup_key k hash, cid, size v, sizeOnDisk v)) X ->
   find_file (path_of (lookup_key k hash) v) fs = Some f -> LogFiles fs X -> LogRaw X ->
   In (lookup_key k hash, f_cid f, size v, f_len f) (map snd (X ++ X'))
-  /\ (kind_eqb k CAS = false -> size v = f_len f).
+  /\ (kind_eqb k CAS = false -> size v = f_len f)
+  /\ f_complete f = true
+  /\ (kind_eqb k CAS = true -> legacy v = false -> f_logical f = size v).
 Proof.
-  intros Hin Hf HL HR. destruct (HL _ _ _ _ _ _ Hin Hf) as (_ & Hc & Hl & _). rewrite Hc, Hl. split.
+  intros Hin Hf HL HR. destruct (HL _ _ _ _ _ _ Hin Hf) as (Hcomp & Hc & Hl & Hlg). rewrite Hc, Hl.
+  split; [|split; [|split]].
   - rewrite map_app. apply in_or_app. left. apply (in_map snd) in Hin. exact Hin.
   - intros Hk. apply (HR _ _ _ _ _ Hin). rewrite is_cas_lookup_key. exact Hk.
+  - exact Hcomp.
+  - intros Hk Hleg. apply Hlg; [exact Hleg|rewrite is_cas_lookup_key; exact Hk].
+Qed.
+
+Lemma val_PutStart c d X k hash sz st rnd h tmp :
+  ValStep c d X (mkThread (RPut k hash sz st rnd) PutStart h tmp).
+Proof.
+  intros d' t' H HI _ HV HE HL HRaw. unfold tstep in H. simpl in H.
+  do 3 (match type of H with (if ?b then _ else _) = _ => destruct b end; [fin H|]).
+  match type of H with (if ?b then _ else _) = _ => destruct b eqn:E2 end.
+  { dm H; [fin H|]. inv H. unfold val_ok. simpl. left.
+    apply andb_true_iff in E2 as [E2 E3]. apply andb_true_iff in E2 as [E2 E4].
+    destruct k; try discriminate. apply String.eqb_eq in E3. repeat split; auto. lia. }
+  repeat dm H; fin H.
+Qed.
+
+Lemma val_PutCommit c d X k hash sz st rnd h tmp od :
+  ValStep c d X (mkThread (RPut k hash sz st rnd) (PutCommit od) h tmp).
+Proof.
+  intros d' t' H HI _ HV HE HL HRaw. unfold tstep in H. cbn [t_pc t_req t_held t_tmp] in H.
+  repeat dm H; try discriminate H; inv H; unfold val_ok; simpl; auto;
+    (right; exists od; rewrite map_app; apply in_or_app; right; unfold xcommit_of; simpl; left; reflexivity).
 Qed.
 
 Lemma val_PutFinish c d X k hash sz st rnd h tmp :
@@ -108,12 +133,16 @@ Qed.
 Lemma val_GetValidate c d X k hash sz off zstd b rnd h tmp v id f :
   ValStep c d X (mkThread (RGet k hash sz off zstd b rnd) (GetValidate v id f) h tmp).
 Proof.
-  intros d' t' H HI _ HV HE HL HRaw. unfold val_ok in HV. simpl in HV. destruct HV as [Hin Hraw].
+  intros d' t' H HI _ HV HE HL HRaw. unfold val_ok in HV. simpl in HV. destruct HV as (Hin & Hraw & Hcomp & Hlg).
   assert (Hin' : In (lookup_key k hash, f_cid f, size v, f_len f)
                     (map snd (X ++ xcommit_of (mkThread (RGet k hash sz off zstd b rnd) (GetValidate v id f) h tmp) t'))).
   { rewrite map_app. apply in_or_app. left. exact Hin. }
   unfold tstep in H. simpl in H. destruct (kind_eqb k CAS) eqn:EK.
-  - dm H; inv H; unfold val_ok; simpl; auto. right. exact Hin'.
+  - match type of H with (if ?b then _ else _) = _ => destruct b eqn:Eok end;
+      inv H; unfold val_ok; simpl; auto; [right; exact Hin'|].
+    destruct (legacy v) eqn:EL; [discriminate|]. rewrite Hcomp in Eok. simpl in Eok.
+    apply orb_false_iff in Eok as [E1 E2]. specialize (Hlg eq_refl eq_refl).
+    repeat split; auto; lia.
   - dm H; inv H; unfold val_ok; simpl; auto. right. rewrite (Hraw eq_refl) in Hin'. exact Hin'.
 Qed.
 
@@ -155,7 +184,7 @@ Theorem tstep_val c d X t : ValStep c d X t.
 Proof.
   destruct t as [req pc h tmp].
   destruct pc; try apply val_Cleanup; destruct req;
-    first [ apply val_PutFinish | apply val_GetStart | apply val_GetOpen | apply val_GetSlow
+    first [ apply val_PutStart | apply val_PutCommit | apply val_PutFinish | apply val_GetStart | apply val_GetOpen | apply val_GetSlow
           | apply val_GetValidate | apply val_GetCheck | apply val_GetCommit | triv ].
 Qed.
 
